@@ -31,6 +31,8 @@ OneDevNM(T, m) == { f \in OneDev(T, m) : f["V1"] = InOrder(m) }
 U_t2m4_nm == OneDevNM(T2, 4)
 U_t3m5_nm == OneDevNM(T3, 5)
 U_t2m4 == Plain(T2, 4)
+\* a track that is far ahead before the window is known leaves files nobody deletes (open finding: orphan files)
+U_t2m7 == Plain(T2, 7)
 U_t2m4_dev == OneDev(T2, 4)
 U_t2m5_dev == OneDev(T2, 5)
 U_t2m5_any == AnyDev(T2, 5)
